@@ -32,6 +32,8 @@ REQUIRED_THEOREMS = [
 MONITORS = [("id-echo", sc.monitor_c03)]
 
 RULE = ("ids over absent/null/''/0/negative/fractional/strings/booleans/arrays/objects; batches of calls, notifications, "
+        "methods / dispatch functions raising an exception that is not an instance of Exception (class:baseexc/…: SystemExit, "
+        "KeyboardInterrupt, GeneratorExit, …, as calls with an id — alone and at batch positions — and as notifications), "
         "invalid entries, failing calls, unknown methods, bad arguments in sampled orders up to length 3 (thorough: all 399 "
         "orders x 2 versions x 2 registries) and random up to 6; default, instance and custom dispatchers; callables that "
         "return, raise or return a value whose conversion fails or which the JSON library rejects ({(1,2):3}, a set, "
@@ -45,7 +47,7 @@ RULE = ("ids over absent/null/''/0/negative/fractional/strings/booleans/arrays/o
 
 def run(ctx):
     em = {"translated": 0.5, "structid": 1, "malformed": 0.05, "single": 1, "batch": 2.5, "damaged": 0.2, "descriptor": 0.8, "noise": 0.3, "pool": 0.6, "randreg": 0.4, "post": 0.02,
-          "exhaustive_batch": True}
+          "exhaustive_batch": True, "baseexc": 0.5, "baseexc_calls": 1.0}
     sc.standard_run(ctx, "C03", MONITORS, sc.proj_ids, em, RULE)
 
 
